@@ -916,4 +916,1760 @@ theorem refReplay_unregs {refs : Refs} {c : Addr → Nat} (l : List Addr)
     · have hxa : ¬ x = a := fun e => ha e.symm
       simp [ha, countAddr, filter_cons, hxa] at this ⊢; omega
 
+
+-- ---------------------------------------------------------------- one destination, one operation
+
+/-- the NEXTHOP_INVALID flag of every stored path says whether its next hop is currently reported
+    unreachable -/
+def FlagsOK (unr : List Addr) (ps : List Path) : Prop := ∀ x ∈ ps, x.inv = unr.contains x.nh
+
+/-- What one operation on destination `p` (paths `ps` ↦ `ps'`, requests `reqs`) preserves. -/
+structure LocalOK (cfg : Cfg) (unr' : List Addr) (p : Pfx) (ps ps' : List Path) (reqs : List Req) : Prop where
+  sorted : Sorted ps'
+  flags : FlagsOK unr' ps'
+  cells : ∀ fib, CellsOK cfg fib p (eligible ps) → CellsOK cfg (fibReplay fib (fibReqs reqs)) p (eligible ps')
+  owned : ∀ r ∈ fibReqs reqs, owned p (r.table, r.pfx)
+  refs : ∀ (refs : Refs) (K : Addr → Nat), (∀ a, refGet refs a = usesPaths a ps + K a) →
+    ∃ refs', refReplay refs (nhtReqs reqs) = some refs' ∧ ∀ a, refGet refs' a = usesPaths a ps' + K a
+
+theorem samePath_isPeer {src pid : Nat} {r : Path} (h : samePath src pid r = true) : isPeer r.src = isPeer src := by
+  simp only [samePath, Bool.and_eq_true, beq_iff_eq] at h
+  have h1 := h.1
+  unfold addrKey at h1
+  cases hr : isPeer r.src <;> cases hs : isPeer src <;> simp [hr, hs] at h1 ⊢
+  · rw [← h1] at hs; simp [isPeer, srcLocal] at hs
+  · rw [h1] at hr; simp [isPeer, srcLocal] at hr
+
+theorem insertPaths_fst (p : Pfx) (ps : List Path) (e : Path) :
+    (insertPaths p ps e).1 = match extract (samePath e.src e.pid) ps with
+      | some (r, rest) => insertSorted { e with uid := r.uid } rest
+      | none => insertSorted e ps := by
+  unfold insertPaths
+  cases hx : extract (samePath e.src e.pid) ps with
+  | none => rfl
+  | some rr => rfl
+
+/-- bookkeeping of uses around an insertion: a common base plus the replaced / the new path -/
+theorem insertPaths_uses (p : Pfx) (ps : List Path) (e : Path) :
+    ∃ base : Addr → Nat,
+      (∀ a, usesPaths a ps = base a + (match lookupNexthop ps e.src e.pid with
+          | some o => if isPeer e.src = true ∧ o = a then 1 else 0 | none => 0)) ∧
+      (∀ a, usesPaths a (insertPaths p ps e).1 = base a + (if isPeer e.src = true ∧ e.nh = a then 1 else 0)) := by
+  rw [insertPaths_fst]
+  unfold lookupNexthop
+  cases hx : extract (samePath e.src e.pid) ps with
+  | none =>
+    refine ⟨fun a => usesPaths a ps, by simp, ?_⟩
+    intro a
+    simp only
+    rw [usesPaths_perm (insertSorted_perm e ps), usesPaths_cons]
+  | some rr =>
+    obtain ⟨r, rest⟩ := rr
+    obtain ⟨hsame, hperm, _⟩ := extract_some hx
+    have hpeer := samePath_isPeer hsame
+    refine ⟨fun a => usesPaths a rest, ?_, ?_⟩
+    · intro a
+      simp only
+      rw [usesPaths_perm hperm, usesPaths_cons, hpeer]
+    · intro a
+      simp only
+      rw [usesPaths_perm (insertSorted_perm _ rest), usesPaths_cons]
+
+theorem nhtReqs_nhtRegister (src : Nat) (nh : Addr) (old : Option Addr) :
+    nhtReqs (nhtRegister src nh old) =
+      if isPeer src then (true, nh) :: (match old with | some o => [(false, o)] | none => []) else [] := by
+  unfold nhtRegister
+  cases isPeer src <;> cases old <;> simp [nhtReqs]
+
+theorem fibReqs_nhtRegister (src : Nat) (nh : Addr) (old : Option Addr) : fibReqs (nhtRegister src nh old) = [] := by
+  unfold nhtRegister
+  cases isPeer src <;> cases old <;> simp [fibReqs]
+
+theorem nhtReqs_distOpt (cfg : Cfg) (ch : Option Change) : nhtReqs (distOpt cfg ch) = [] := by
+  cases ch with
+  | none => simp [distOpt, nhtReqs]
+  | some c =>
+    apply nhtReqs_nil_of_apply
+    intro r hr
+    obtain ⟨t, q, he, _⟩ := distribute_all_apply cfg c r hr
+    exact ⟨t, q, _, he⟩
+
+theorem FlagsOK.insert {unr : List Addr} {e : Path} {l : List Path} (he : e.inv = unr.contains e.nh)
+    (h : FlagsOK unr l) : FlagsOK unr (insertSorted e l) := by
+  intro x hx
+  rcases mem_insertSorted.mp hx with rfl | hx
+  · exact he
+  · exact h x hx
+
+theorem FlagsOK.subset {unr : List Addr} {l l' : List Path} (hs : ∀ x ∈ l', x ∈ l) (h : FlagsOK unr l) :
+    FlagsOK unr l' := fun x hx => h x (hs x hx)
+
+/-- Core of `insert_route` and of one soft-reset re-insertion: path `e` (flag consistent with the
+    reports) is inserted, `nht` being the tracking requests issued for it. -/
+theorem insertLike_local (cfg : Cfg) {unr : List Addr} (p : Pfx) {ps : List Path} (e : Path) (nht : List Req)
+    (hs : Sorted ps) (hf : FlagsOK unr ps) (he : e.inv = unr.contains e.nh)
+    (hnf : fibReqs nht = [])
+    (hnht : ∀ (refs : Refs) (c : Addr → Nat),
+      (∀ a, refGet refs a = c a + (match lookupNexthop ps e.src e.pid with
+          | some o => if isPeer e.src = true ∧ o = a then 1 else 0 | none => 0)) →
+      ∃ refs', refReplay refs (nhtReqs nht) = some refs' ∧
+        ∀ a, refGet refs' a = c a + (if isPeer e.src = true ∧ e.nh = a then 1 else 0)) :
+    LocalOK cfg unr p ps (insertPaths p ps e).1 (nht ++ distOpt cfg (insertPaths p ps e).2) := by
+  obtain ⟨hsorted, hch⟩ := insertPaths_spec p e hs
+  refine ⟨hsorted, ?_, ?_, ?_, ?_⟩
+  · rw [insertPaths_fst]
+    cases hx : extract (samePath e.src e.pid) ps with
+    | none => exact hf.insert he
+    | some rr =>
+      obtain ⟨r, rest⟩ := rr
+      exact (hf.subset (extract_mem hx).2).insert he
+  · intro fib hc
+    rw [fibReqs_append, hnf, nil_append]
+    exact cells_distOpt cfg hch hc
+  · intro r hr
+    rw [fibReqs_append, hnf, nil_append] at hr
+    exact distOpt_owned cfg hch r hr
+  · intro refs K hr
+    rw [nhtReqs_append, nhtReqs_distOpt, append_nil]
+    obtain ⟨base, hb1, hb2⟩ := insertPaths_uses p ps e
+    obtain ⟨refs', h1, h2⟩ := hnht refs (fun a => base a + K a) (by intro a; rw [hr a, hb1 a]; omega)
+    exact ⟨refs', h1, by intro a; rw [h2 a, hb2 a]; omega⟩
+
+
+theorem LocalOK.refl (cfg : Cfg) {unr : List Addr} (p : Pfx) {ps : List Path} (hs : Sorted ps) (hf : FlagsOK unr ps) :
+    LocalOK cfg unr p ps ps [] :=
+  ⟨hs, hf, fun fib h => by simpa [fibReqs, fibReplay] using h, by simp [fibReqs],
+   fun refs K h => ⟨refs, by simp [nhtReqs, refReplay], h⟩⟩
+
+theorem LocalOK.trans {cfg : Cfg} {unr : List Addr} {p : Pfx} {ps ps1 ps2 : List Path} {r1 r2 : List Req}
+    (h1 : LocalOK cfg unr p ps ps1 r1) (h2 : LocalOK cfg unr p ps1 ps2 r2) :
+    LocalOK cfg unr p ps ps2 (r1 ++ r2) := by
+  refine ⟨h2.sorted, h2.flags, ?_, ?_, ?_⟩
+  · intro fib hc
+    have := h2.cells _ (h1.cells fib hc)
+    simpa [fibReqs_append, fibReplay, foldl_append] using this
+  · intro r hr
+    rw [fibReqs_append] at hr
+    rcases mem_append.mp hr with hr | hr
+    · exact h1.owned r hr
+    · exact h2.owned r hr
+  · intro refs K hr
+    obtain ⟨refs1, e1, g1⟩ := h1.refs refs K hr
+    obtain ⟨refs2, e2, g2⟩ := h2.refs refs1 K g1
+    exact ⟨refs2, by rw [nhtReqs_append, refReplay_append, e1]; exact e2, g2⟩
+
+theorem insertDest_local (cfg : Cfg) {unr : List Addr} (policy : Policy) (invalid : List Addr) (p : Pfx)
+    {ps : List Path} (src sid pid : Nat) (nh0 : Addr) (lp cl : Nat) (rts : List Nat) (fresh : Nat)
+    (hs : Sorted ps) (hf : FlagsOK unr ps) (hinv : ∀ a, invalid.contains a = unr.contains a) :
+    LocalOK cfg unr p ps (insertDest cfg policy invalid p ps src sid pid nh0 lp cl rts fresh).1
+      (insertDest cfg policy invalid p ps src sid pid nh0 lp cl rts fresh).2 := by
+  unfold insertDest
+  dsimp only
+  apply insertLike_local cfg p _ _ hs hf
+  · exact hinv _
+  · exact fibReqs_nhtRegister _ _ _
+  · intro refs c h
+    dsimp only at h ⊢
+    rw [nhtReqs_nhtRegister]
+    cases hp : isPeer src with
+    | false =>
+      refine ⟨refs, by simp [refReplay], ?_⟩
+      intro a
+      have := h a
+      simp only [hp] at this ⊢
+      cases hl : lookupNexthop ps src pid <;> simp [hl] at this ⊢ <;> exact this
+    | true =>
+      simp only [if_true]
+      have h' : ∀ a, refGet refs a = c a + (match lookupNexthop ps src pid with
+          | some o => if a = o then 1 else 0 | none => 0) := by
+        intro a
+        have := h a
+        simp only [hp, true_and] at this
+        cases hl : lookupNexthop ps src pid with
+        | none => simpa [hl] using this
+        | some o =>
+          simp only [hl] at this ⊢
+          by_cases hao : a = o
+          · subst hao; simpa using this
+          · have : ¬ o = a := fun e => hao e.symm
+            simp_all
+      obtain ⟨refs', e1, g1⟩ := refReplay_reg_unreg (applyImport policy src nh0).2 _ h'
+      refine ⟨refs', e1, ?_⟩
+      intro a
+      rw [g1 a]
+      by_cases ha : a = (applyImport policy src nh0).2
+      · subst ha; simp
+      · have : ¬ (applyImport policy src nh0).2 = a := fun e => ha e.symm
+        simp [ha, this]
+
+theorem softOne_local (cfg : Cfg) {unr : List Addr} (policy : Policy) (invalid : List Addr) (p : Pfx)
+    {ps : List Path} (old : Path)
+    (hs : Sorted ps) (hf : FlagsOK unr ps) (hinv : ∀ a, invalid.contains a = unr.contains a) :
+    LocalOK cfg unr p ps (softOne cfg policy invalid p ps old).1 (softOne cfg policy invalid p ps old).2 := by
+  unfold softOne
+  dsimp only
+  apply insertLike_local cfg p _ _ hs hf
+  · exact hinv _
+  · split
+    · cases lookupNexthop ps old.src old.pid <;> simp [fibReqs]
+    · simp [fibReqs]
+  · intro refs c h
+    dsimp only at h ⊢
+    cases hp : isPeer old.src with
+    | false =>
+      simp only [Bool.false_and, Bool.false_eq_true, if_false]
+      refine ⟨refs, by simp [nhtReqs, refReplay], ?_⟩
+      intro a
+      have := h a
+      simp only [hp] at this ⊢
+      cases hl : lookupNexthop ps old.src old.pid <;> simp [hl] at this ⊢ <;> exact this
+    | true =>
+      simp only [Bool.true_and]
+      by_cases hsame : lookupNexthop ps old.src old.pid = some (applyImport policy old.src old.nh).2
+      · -- policy left the next hop alone: nothing is sent
+        simp only [hsame, bne_self_eq_false, Bool.false_eq_true, if_false]
+        refine ⟨refs, by simp [nhtReqs, refReplay], ?_⟩
+        intro a
+        have := h a
+        simpa [hp, hsame] using this
+      · have hne : (lookupNexthop ps old.src old.pid != some (applyImport policy old.src old.nh).2) = true := by
+          simpa using hsame
+        simp only [hne, if_true]
+        have h' : ∀ a, refGet refs a = c a + (match lookupNexthop ps old.src old.pid with
+            | some o => if a = o then 1 else 0 | none => 0) := by
+          intro a
+          have := h a
+          simp only [hp, true_and] at this
+          cases hl : lookupNexthop ps old.src old.pid with
+          | none => simpa [hl] using this
+          | some o =>
+            simp only [hl] at this ⊢
+            by_cases hao : a = o
+            · subst hao; simpa using this
+            · have : ¬ o = a := fun e => hao e.symm
+              simp_all
+        obtain ⟨refs', e1, g1⟩ := refReplay_reg_unreg (applyImport policy old.src old.nh).2 _ h'
+        refine ⟨refs', ?_, ?_⟩
+        · rw [← e1]
+          cases lookupNexthop ps old.src old.pid <;> simp [nhtReqs]
+        · intro a
+          rw [g1 a]
+          by_cases ha : a = (applyImport policy old.src old.nh).2
+          · subst ha; simp
+          · have : ¬ (applyImport policy old.src old.nh).2 = a := fun e => ha e.symm
+            simp [ha, this]
+
+theorem softPaths_local (cfg : Cfg) {unr : List Addr} (policy : Policy) (invalid : List Addr) (p : Pfx)
+    (todo : List Path) {ps : List Path}
+    (hs : Sorted ps) (hf : FlagsOK unr ps) (hinv : ∀ a, invalid.contains a = unr.contains a) :
+    LocalOK cfg unr p ps (softPaths cfg policy invalid p todo ps).1 (softPaths cfg policy invalid p todo ps).2 := by
+  induction todo generalizing ps with
+  | nil => exact LocalOK.refl cfg p hs hf
+  | cons o os ih =>
+    have h1 := softOne_local cfg policy invalid p o hs hf hinv
+    have h2 := ih h1.sorted h1.flags
+    exact h1.trans h2
+
+
+theorem nhtReqs_map_unreg (l : List Addr) : nhtReqs (l.map Req.unreg) = l.map (fun a => (false, a)) := by
+  induction l with
+  | nil => rfl
+  | cons a l ih => simp [nhtReqs, ih]
+
+theorem fibReqs_map_unreg (l : List Addr) : fibReqs (l.map Req.unreg) = [] := by
+  induction l with
+  | nil => rfl
+  | cons a l ih => simp [fibReqs, ih]
+
+theorem removePaths_extract {p : Pfx} {ps : List Path} {src pid : Nat} {rest : List Path}
+    {ch : Option Change} {nh : Addr} (h : removePaths p ps src pid = some (rest, ch, nh)) :
+    ∃ r, extract (samePath src pid) ps = some (r, rest) ∧ nh = r.nh := by
+  unfold removePaths at h
+  split at h
+  · simp at h
+  · rename_i r rest' hx
+    dsimp only at h
+    split at h <;>
+    · simp only [Option.some.injEq, Prod.mk.injEq] at h
+      obtain ⟨rfl, _, rfl⟩ := h
+      exact ⟨r, hx, rfl⟩
+
+theorem removeDest_local (cfg : Cfg) {unr : List Addr} (p : Pfx) {ps : List Path} (src pid : Nat)
+    (hs : Sorted ps) (hf : FlagsOK unr ps) :
+    LocalOK cfg unr p ps (removeDest cfg p ps src pid).1 (removeDest cfg p ps src pid).2 := by
+  unfold removeDest
+  cases hr : removePaths p ps src pid with
+  | none => exact LocalOK.refl cfg p hs hf
+  | some x =>
+    obtain ⟨rest, ch, oldNh⟩ := x
+    dsimp only
+    obtain ⟨hsorted, hch⟩ := removePaths_spec p src pid hs hr
+    obtain ⟨r, hx, rfl⟩ := removePaths_extract hr
+    obtain ⟨hsame, hperm, _⟩ := extract_some hx
+    have hnf : fibReqs (if isPeer src = true then [Req.unreg r.nh] else []) = [] := by
+      split <;> simp [fibReqs]
+    refine ⟨hsorted, hf.subset (extract_mem hx).2, ?_, ?_, ?_⟩
+    · intro fib hc
+      rw [fibReqs_append, hnf, append_nil]
+      exact cells_distOpt cfg hch hc
+    · intro q hq
+      rw [fibReqs_append, hnf, append_nil] at hq
+      exact distOpt_owned cfg hch q hq
+    · intro refs K hrf
+      rw [nhtReqs_append, nhtReqs_distOpt, nil_append]
+      have hu : ∀ a, usesPaths a ps = usesPaths a rest + (if isPeer src = true ∧ r.nh = a then 1 else 0) := by
+        intro a
+        rw [usesPaths_perm hperm, usesPaths_cons, samePath_isPeer hsame]
+      cases hp : isPeer src with
+      | false =>
+        refine ⟨refs, by simp [nhtReqs, refReplay], ?_⟩
+        intro a
+        rw [hrf a, hu a]; simp [hp]
+      | true =>
+        simp only [if_true]
+        have := @refReplay_unregs refs (fun a => usesPaths a rest + K a) [r.nh] (by
+          intro a
+          rw [hrf a, hu a]
+          simp only [hp, true_and, countAddr, filter_cons, filter_nil]
+          by_cases h : r.nh = a
+          · simp [h]; try omega
+          · simp [h])
+        simpa [nhtReqs] using this
+
+theorem dropPaths_fst (p : Pfx) (ps : List Path) (sel : Path → Bool) :
+    (dropPaths p ps sel).1 = ps.filter (fun e => !sel e) := by
+  unfold dropPaths
+  split
+  · rename_i h
+    have : ∀ x ∈ ps, sel x = false := by simpa using h
+    symm
+    apply filter_eq_self.mpr
+    intro x hx; simp [this x hx]
+  · dsimp only
+    split
+    · rfl
+    · split <;> rfl
+
+theorem dropPaths_nhs (p : Pfx) (ps : List Path) (sel : Path → Bool) :
+    (dropPaths p ps sel).2.2 = (ps.filter sel).map (·.nh) := by
+  unfold dropPaths
+  split
+  · rename_i h
+    have : ∀ x ∈ ps, sel x = false := by simpa using h
+    have : ps.filter sel = [] := by
+      apply filter_eq_nil_iff.mpr
+      intro x hx; simp [this x hx]
+    simp [this]
+  · dsimp only
+    split
+    · rfl
+    · split <;> rfl
+
+theorem usesPaths_split (a : Addr) (ps : List Path) (sel : Path → Bool) :
+    usesPaths a ps = usesPaths a (ps.filter (fun e => !sel e)) + usesPaths a (ps.filter sel) := by
+  induction ps with
+  | nil => rfl
+  | cons x l ih =>
+    cases hx : sel x
+    · simp [filter_cons, hx, usesPaths_cons, ih]; omega
+    · simp [filter_cons, hx, usesPaths_cons, ih]; omega
+
+theorem usesPaths_eq_count {a : Addr} {l : List Path} (h : ∀ x ∈ l, isPeer x.src = true) :
+    usesPaths a l = countAddr a (l.map (·.nh)) := by
+  induction l with
+  | nil => rfl
+  | cons x l ih =>
+    rw [usesPaths_cons, ih (fun y hy => h y (by simp [hy]))]
+    simp only [map_cons, countAddr, filter_cons, h x (by simp), true_and]
+    by_cases hx : x.nh = a <;> simp [hx]
+
+theorem dropDest_local (cfg : Cfg) {unr : List Addr} (sel : Path → Bool) (p : Pfx) {ps : List Path}
+    (hsel : ∀ x, sel x = true → isPeer x.src = true)
+    (hs : Sorted ps) (hf : FlagsOK unr ps) :
+    LocalOK cfg unr p ps (dropDest cfg sel p ps).1 (dropDest cfg sel p ps).2 := by
+  unfold dropDest
+  dsimp only
+  obtain ⟨hsorted, hch⟩ := dropPaths_spec p sel hs
+  refine ⟨hsorted, ?_, ?_, ?_, ?_⟩
+  · rw [dropPaths_fst]
+    exact hf.subset (fun x hx => (mem_filter.mp hx).1)
+  · intro fib hc
+    rw [fibReqs_append, fibReqs_map_unreg, append_nil]
+    exact cells_distOpt cfg hch hc
+  · intro q hq
+    rw [fibReqs_append, fibReqs_map_unreg, append_nil] at hq
+    exact distOpt_owned cfg hch q hq
+  · intro refs K hrf
+    rw [nhtReqs_append, nhtReqs_distOpt, nil_append, nhtReqs_map_unreg, dropPaths_nhs, dropPaths_fst]
+    apply refReplay_unregs
+    intro a
+    rw [hrf a, usesPaths_split a ps sel,
+      usesPaths_eq_count (l := ps.filter sel) (fun x hx => hsel x (mem_filter.mp hx).2)]
+    omega
+
+theorem restalePaths_fst (p : Pfx) (ps : List Path) (k : Nat) :
+    (restalePaths p ps k).1.Perm (ps.map (fun e => if fromAddr k e then { e with stale := true } else e)) := by
+  unfold restalePaths
+  split
+  · rename_i h
+    have : ∀ x ∈ ps, fromAddr k x = false := by simpa using h
+    have hm : ps.map (fun e => if fromAddr k e then { e with stale := true } else e) = ps := by
+      conv => rhs; rw [← map_id ps]
+      apply map_congr_left
+      intro x hx; simp [this x hx]
+    rw [hm]
+  · exact sortPaths_perm _
+
+theorem restaleDest_local (cfg : Cfg) {unr : List Addr} (k : Nat) (p : Pfx) {ps : List Path}
+    (hs : Sorted ps) (hf : FlagsOK unr ps) :
+    LocalOK cfg unr p ps (restaleDest cfg k p ps).1 (restaleDest cfg k p ps).2 := by
+  unfold restaleDest
+  dsimp only
+  obtain ⟨hsorted, hch⟩ := restalePaths_spec p k hs
+  have hperm := restalePaths_fst p ps k
+  refine ⟨hsorted, ?_, fun fib hc => cells_distOpt cfg hch hc, distOpt_owned cfg hch, ?_⟩
+  · intro x hx
+    obtain ⟨y, hy, rfl⟩ := mem_map.mp (hperm.mem_iff.mp hx)
+    have := hf y hy
+    split <;> simpa using this
+  · intro refs K hrf
+    rw [nhtReqs_distOpt]
+    refine ⟨refs, by simp [refReplay], ?_⟩
+    intro a
+    rw [hrf a, usesPaths_perm hperm, usesPaths_map]
+    intro x; split <;> simp
+
+/-- reachability reports, as the reference checker folds them -/
+theorem report_contains (unr : List Addr) (a : Addr) (r : Bool) (b : Addr) :
+    (report unr (.nh a r)).contains b = if b = a then !r else unr.contains b := by
+  cases r
+  · simp only [report, contains_cons]
+    by_cases h : b = a
+    · simp [h]
+    · simp [h]
+  · simp only [report]
+    by_cases h : b = a
+    · subst h; simp
+    · simp only [h, if_false]
+      simp [h]
+
+theorem validityDest_local (cfg : Cfg) {unr : List Addr} (a : Addr) (r : Bool) (p : Pfx) {ps : List Path}
+    (hs : Sorted ps) (hf : FlagsOK unr ps) :
+    LocalOK cfg (report unr (.nh a r)) p ps (validityDest cfg a r p ps).1 (validityDest cfg a r p ps).2 := by
+  unfold validityDest
+  dsimp only
+  obtain ⟨hsorted, hch⟩ := validityPaths_spec p a r hs
+  refine ⟨hsorted, ?_, fun fib hc => cells_distOpt cfg hch hc, distOpt_owned cfg hch, ?_⟩
+  · unfold validityPaths
+    dsimp only
+    split
+    · rename_i hno
+      intro x hx
+      rw [report_contains]
+      by_cases hxa : x.nh = a
+      · have : ∀ y ∈ ps, ¬ (y.nh = a ∧ y.inv ≠ !r) := by simpa using hno
+        have := this x hx
+        simp only [hxa, if_true]
+        cases hxi : x.inv <;> cases r <;> simp_all
+      · simp only [hxa, if_false]; exact hf x hx
+    · intro x hx
+      obtain ⟨y, hy, rfl⟩ := mem_map.mp hx
+      rw [report_contains]
+      by_cases hya : y.nh = a
+      · simp [hya]
+      · have : (y.nh == a) = false := by simpa using hya
+        simp only [this, Bool.false_eq_true, if_false, hya]
+        exact hf y hy
+  · intro refs K hrf
+    rw [nhtReqs_distOpt]
+    refine ⟨refs, by simp [refReplay], ?_⟩
+    intro b
+    rw [hrf b]
+    unfold validityPaths
+    dsimp only
+    split
+    · rfl
+    · rw [usesPaths_map]
+      intro x; split <;> simp
+
+
+-- ---------------------------------------------------------------- destinations
+
+def keys (ds : List Dest) : List Pfx := ds.map (·.pfx)
+
+def usesAll (a : Addr) (ds : List Dest) : Nat := (ds.map (fun d => usesPaths a d.paths)).sum
+
+theorem lookupDest_cons (d : Dest) (ds : List Dest) (p : Pfx) :
+    lookupDest (d :: ds) p = if d.pfx = p then d.paths else lookupDest ds p := by
+  unfold lookupDest
+  rw [find?_cons]
+  by_cases h : d.pfx = p
+  · simp [h]
+  · have : (d.pfx == p) = false := by simpa using h
+    simp [this, h]
+
+theorem lookupDest_of_not_mem {ds : List Dest} {p : Pfx} (h : p ∉ keys ds) : lookupDest ds p = [] := by
+  induction ds with
+  | nil => rfl
+  | cons d ds ih =>
+    simp only [keys, map_cons, mem_cons, not_or] at h
+    rw [lookupDest_cons, if_neg (fun e => h.1 e.symm)]
+    exact ih h.2
+
+theorem lookupDest_mem {ds : List Dest} {d : Dest} (hn : (keys ds).Nodup) (hd : d ∈ ds) :
+    lookupDest ds d.pfx = d.paths := by
+  induction ds with
+  | nil => simp at hd
+  | cons x ds ih =>
+    simp only [keys, map_cons, nodup_cons] at hn
+    rw [lookupDest_cons]
+    rcases mem_cons.mp hd with rfl | hd
+    · simp
+    · have : x.pfx ≠ d.pfx := by
+        intro e; apply hn.1; rw [e]; exact mem_map.mpr ⟨d, hd, rfl⟩
+      rw [if_neg this]; exact ih hn.2 hd
+
+theorem lookupDest_cases (ds : List Dest) (p : Pfx) :
+    lookupDest ds p = [] ∨ ∃ d ∈ ds, d.pfx = p ∧ d.paths = lookupDest ds p := by
+  induction ds with
+  | nil => left; rfl
+  | cons x ds ih =>
+    rw [lookupDest_cons]
+    by_cases h : x.pfx = p
+    · right; exact ⟨x, by simp, h, by simp [h]⟩
+    · rw [if_neg h]
+      rcases ih with h0 | ⟨d, hd, h1, h2⟩
+      · left; exact h0
+      · right; exact ⟨d, by simp [hd], h1, h2⟩
+
+theorem lookupDest_filter_ne (ds : List Dest) (p q : Pfx) :
+    lookupDest (ds.filter (fun d => !(d.pfx == p))) q = if q = p then [] else lookupDest ds q := by
+  induction ds with
+  | nil => simp [lookupDest]
+  | cons d ds ih =>
+    rw [filter_cons]
+    by_cases hd : d.pfx = p
+    · simp only [hd, beq_self_eq_true, Bool.not_true, Bool.false_eq_true, if_false, ih, lookupDest_cons]
+      by_cases hq : q = p
+      · simp [hq]
+      · have : ¬ p = q := fun e => hq e.symm
+        simp [hq, this]
+    · have : (d.pfx == p) = false := by simpa using hd
+      simp only [this, Bool.not_false, if_true, lookupDest_cons, ih]
+      by_cases hq : q = p
+      · subst hq; simp [hd]
+      · simp [hq]
+
+theorem lookupDest_map_replace (ds : List Dest) (p : Pfx) (x : List Path) (q : Pfx) :
+    lookupDest (ds.map (fun d => if (d.pfx == p) = true then (⟨p, x⟩ : Dest) else d)) q =
+      if q = p then (if (ds.any fun d => d.pfx == p) = true then x else []) else lookupDest ds q := by
+  induction ds with
+  | nil => simp [lookupDest]
+  | cons d ds ih =>
+    rw [map_cons, lookupDest_cons, lookupDest_cons, ih, any_cons]
+    by_cases hd : d.pfx = p
+    · simp only [hd, beq_self_eq_true, if_true, Bool.true_or]
+      by_cases hq : q = p
+      · simp [hq]
+      · have : ¬ p = q := fun e => hq e.symm
+        simp [hq, this]
+    · have hb : (d.pfx == p) = false := by simpa using hd
+      simp only [hb, Bool.false_eq_true, if_false, Bool.false_or]
+      by_cases hq : q = p
+      · subst hq; simp [hd]
+      · simp [hq]
+
+theorem lookupDest_append_single (ds : List Dest) (p : Pfx) (x : List Path) (q : Pfx) (hnot : p ∉ keys ds) :
+    lookupDest (ds ++ [⟨p, x⟩]) q = if q = p then x else lookupDest ds q := by
+  induction ds with
+  | nil =>
+    simp only [nil_append, lookupDest_cons]
+    by_cases hq : q = p
+    · simp [hq]
+    · have : ¬ p = q := fun e => hq e.symm
+      simp [hq, this, lookupDest]
+  | cons d ds ih =>
+    simp only [keys, map_cons, mem_cons, not_or] at hnot
+    rw [cons_append, lookupDest_cons, lookupDest_cons, ih hnot.2]
+    by_cases hd : d.pfx = q
+    · have : ¬ q = p := by rw [← hd]; exact fun e => hnot.1 e.symm
+      simp [hd, this]
+    · simp [hd]
+
+theorem lookupDest_setDest (ds : List Dest) (p : Pfx) (x : List Path) (q : Pfx) :
+    lookupDest (setDest ds p x) q = if q = p then x else lookupDest ds q := by
+  unfold setDest
+  split
+  · rename_i hx
+    have hx' : x = [] := by simpa using hx
+    rw [lookupDest_filter_ne, hx']
+  · split
+    · rename_i hany
+      rw [lookupDest_map_replace, if_pos hany]
+    · rename_i hany
+      apply lookupDest_append_single
+      intro hm
+      obtain ⟨d, hd, he⟩ := mem_map.mp hm
+      apply hany
+      exact any_eq_true.mpr ⟨d, hd, by simp [he]⟩
+
+theorem mem_setDest {ds : List Dest} {p : Pfx} {x : List Path} {d : Dest} (h : d ∈ setDest ds p x) :
+    d ∈ ds ∨ d = ⟨p, x⟩ := by
+  unfold setDest at h
+  split at h
+  · left; exact (mem_filter.mp h).1
+  · split at h
+    · obtain ⟨e, he, rfl⟩ := mem_map.mp h
+      split
+      · right; rfl
+      · left; exact he
+    · rcases mem_append.mp h with h | h
+      · left; exact h
+      · right; simpa using h
+
+theorem keys_setDest_nodup {ds : List Dest} (p : Pfx) (x : List Path) (hn : (keys ds).Nodup) :
+    (keys (setDest ds p x)).Nodup := by
+  unfold setDest
+  split
+  · exact (hn.sublist ((filter_sublist).map _))
+  · split
+    · have : keys (ds.map fun d => if (d.pfx == p) = true then ⟨p, x⟩ else d) = keys ds := by
+        simp only [keys, map_map]
+        apply map_congr_left
+        intro d _
+        simp only [Function.comp]
+        split
+        · rename_i h
+          have : d.pfx = p := by simpa using h
+          exact this.symm
+        · rfl
+      rw [this]; exact hn
+    · rename_i hany
+      simp only [keys, map_append, map_cons, map_nil]
+      apply nodup_append.mpr
+      refine ⟨hn, by simp, ?_⟩
+      intro a ha b hb
+      simp only [mem_cons, not_mem_nil, or_false] at hb
+      subst hb
+      intro e; subst e
+      obtain ⟨d, hd, he⟩ := mem_map.mp ha
+      apply hany
+      exact any_eq_true.mpr ⟨d, hd, by simp [he]⟩
+
+theorem usesAll_setDest {ds : List Dest} (a : Addr) (p : Pfx) (x : List Path) (hn : (keys ds).Nodup) :
+    usesAll a (setDest ds p x) + usesPaths a (lookupDest ds p) = usesAll a ds + usesPaths a x := by
+  induction ds with
+  | nil =>
+    unfold setDest
+    cases x with
+    | nil => simp [usesAll, lookupDest, usesPaths]
+    | cons y ys => simp [usesAll, lookupDest, usesPaths]
+  | cons d ds ih =>
+    simp only [keys, map_cons, nodup_cons] at hn
+    have ih' := ih hn.2
+    rw [lookupDest_cons]
+    by_cases hd : d.pfx = p
+    · -- p is the head; it does not occur in the tail
+      have hnot : p ∉ keys ds := by rw [← hd]; exact hn.1
+      have hl : lookupDest ds p = [] := lookupDest_of_not_mem hnot
+      have hnone : ∀ e ∈ ds, (e.pfx == p) = false := by
+        intro e he
+        apply beq_eq_false_iff_ne.mpr
+        intro h; apply hnot; rw [← h]; exact mem_map.mpr ⟨e, he, rfl⟩
+      rw [if_pos hd]
+      unfold setDest
+      split
+      · rename_i hx
+        have hx' : x = [] := by simpa using hx
+        have : (d :: ds).filter (fun e => !(e.pfx == p)) = ds := by
+          rw [filter_cons]; simp only [hd, beq_self_eq_true, Bool.not_true, Bool.false_eq_true, if_false]
+          apply filter_eq_self.mpr
+          intro e he; simp [hnone e he]
+        rw [this, hx']; simp [usesAll, usesPaths]; omega
+      · have hany : ((d :: ds).any fun e => e.pfx == p) = true := by simp [any_cons, hd]
+        rw [if_pos hany]
+        have : (d :: ds).map (fun e => if (e.pfx == p) = true then (⟨p, x⟩ : Dest) else e) = ⟨p, x⟩ :: ds := by
+          rw [map_cons]; simp only [hd, beq_self_eq_true, if_true]
+          congr 1
+          conv => rhs; rw [← map_id ds]
+          apply map_congr_left
+          intro e he; simp [hnone e he]
+        rw [this]; simp [usesAll]; omega
+    · rw [if_neg hd]
+      have hb : (d.pfx == p) = false := by simpa using hd
+      have key : usesAll a (setDest (d :: ds) p x) = usesPaths a d.paths + usesAll a (setDest ds p x) := by
+        unfold setDest
+        split
+        · rw [filter_cons]; simp [hb, usesAll]
+        · by_cases hany : (ds.any fun e => e.pfx == p) = true
+          · have : ((d :: ds).any fun e => e.pfx == p) = true := by simp [any_cons, hany]
+            rw [if_pos this, if_pos hany, map_cons]; simp [hb, usesAll]
+          · have : ¬ ((d :: ds).any fun e => e.pfx == p) = true := by simpa [any_cons, hb] using hany
+            rw [if_neg this, if_neg hany]; simp [usesAll]
+      rw [key]
+      have : usesAll a (d :: ds) = usesPaths a d.paths + usesAll a ds := by simp [usesAll]
+      rw [this]; omega
+
+
+-- ---------------------------------------------------------------- traversals
+
+theorem trav_cons (f : Pfx → List Path → List Path × List Req) (d : Dest) (ds : List Dest) :
+    trav f (d :: ds) =
+      ((if (f d.pfx d.paths).1.isEmpty then (trav f ds).1 else ⟨d.pfx, (f d.pfx d.paths).1⟩ :: (trav f ds).1),
+       (f d.pfx d.paths).2 ++ (trav f ds).2) := rfl
+
+theorem keys_trav_sublist (f : Pfx → List Path → List Path × List Req) (ds : List Dest) :
+    (keys (trav f ds).1).Sublist (keys ds) := by
+  induction ds with
+  | nil => simp [trav, keys]
+  | cons d ds ih =>
+    rw [trav_cons]
+    dsimp only
+    split
+    · exact ih.trans (by simp [keys])
+    · simp only [keys, map_cons]; exact ih.cons_cons _
+
+theorem mem_trav {f : Pfx → List Path → List Path × List Req} {ds : List Dest} {d' : Dest}
+    (h : d' ∈ (trav f ds).1) : ∃ d ∈ ds, d' = ⟨d.pfx, (f d.pfx d.paths).1⟩ := by
+  induction ds with
+  | nil => simp [trav] at h
+  | cons d ds ih =>
+    rw [trav_cons] at h
+    dsimp only at h
+    split at h
+    · obtain ⟨e, he, rfl⟩ := ih h
+      exact ⟨e, by simp [he], rfl⟩
+    · rcases mem_cons.mp h with rfl | h
+      · exact ⟨d, by simp, rfl⟩
+      · obtain ⟨e, he, rfl⟩ := ih h
+        exact ⟨e, by simp [he], rfl⟩
+
+theorem lookupDest_trav (f : Pfx → List Path → List Path × List Req) (hnil : ∀ q, (f q []).1 = [])
+    {ds : List Dest} (hn : (keys ds).Nodup) (p : Pfx) :
+    lookupDest (trav f ds).1 p = (f p (lookupDest ds p)).1 := by
+  induction ds with
+  | nil => simp [trav, lookupDest, hnil]
+  | cons d ds ih =>
+    simp only [keys, map_cons, nodup_cons] at hn
+    rw [trav_cons, lookupDest_cons]
+    dsimp only
+    by_cases hd : d.pfx = p
+    · subst hd
+      have hnot : d.pfx ∉ keys (trav f ds).1 := fun hm => hn.1 ((keys_trav_sublist f ds).subset hm)
+      simp only [if_true]
+      split
+      · rename_i he
+        rw [lookupDest_of_not_mem hnot]
+        exact (by simpa using he : (f d.pfx d.paths).1 = []).symm
+      · rw [lookupDest_cons]; simp
+    · rw [if_neg hd]
+      split
+      · exact ih hn.2
+      · rw [lookupDest_cons, if_neg hd]; exact ih hn.2
+
+theorem usesAll_cons (a : Addr) (d : Dest) (ds : List Dest) :
+    usesAll a (d :: ds) = usesPaths a d.paths + usesAll a ds := by simp [usesAll]
+
+theorem trav_refs {cfg : Cfg} {unr' : List Addr} (f : Pfx → List Path → List Path × List Req) {ds : List Dest}
+    (hloc : ∀ d ∈ ds, LocalOK cfg unr' d.pfx d.paths (f d.pfx d.paths).1 (f d.pfx d.paths).2)
+    (refs : Refs) (K : Addr → Nat) (h : ∀ a, refGet refs a = usesAll a ds + K a) :
+    ∃ refs', refReplay refs (nhtReqs (trav f ds).2) = some refs' ∧
+      ∀ a, refGet refs' a = usesAll a (trav f ds).1 + K a := by
+  induction ds generalizing refs K with
+  | nil => exact ⟨refs, by simp [trav, nhtReqs, refReplay], by simpa [trav] using h⟩
+  | cons d ds ih =>
+    rw [trav_cons]
+    dsimp only
+    obtain ⟨refs1, e1, g1⟩ := (hloc d (by simp)).refs refs (fun a => usesAll a ds + K a)
+      (by intro a; rw [h a, usesAll_cons]; omega)
+    obtain ⟨refs2, e2, g2⟩ := ih (fun e he => hloc e (by simp [he])) refs1
+      (fun a => usesPaths a (f d.pfx d.paths).1 + K a) (by intro a; rw [g1 a]; omega)
+    refine ⟨refs2, by rw [nhtReqs_append, refReplay_append, e1]; exact e2, ?_⟩
+    intro a
+    rw [g2 a]
+    split
+    · rename_i he
+      have : (f d.pfx d.paths).1 = [] := by simpa using he
+      rw [this]; simp [usesPaths]
+    · rw [usesAll_cons]; dsimp only; omega
+
+/-- requests owned by one prefix leave every cell they do not own alone -/
+theorem fibGet_frame {p : Pfx} {rs : List FibReq} (fib : Fib) (ho : ∀ r ∈ rs, owned p (r.table, r.pfx))
+    {k : Key} (hk : ¬ owned p k) : fibGet (fibReplay fib rs) k.1 k.2 = fibGet fib k.1 k.2 := by
+  rw [fibGet_replay, lastNhs_none_of_forall]
+  · rfl
+  · intro r hr e
+    apply hk
+    have : k = (r.table, r.pfx) := by rw [e]
+    rw [this]; exact ho r hr
+
+theorem fibReplay_append (fib : Fib) (a b : List FibReq) :
+    fibReplay fib (a ++ b) = fibReplay (fibReplay fib a) b := by simp [fibReplay, foldl_append]
+
+theorem trav_fib {cfg : Cfg} {unr' : List Addr} (f : Pfx → List Path → List Path × List Req) {ds : List Dest}
+    (hn : (keys ds).Nodup)
+    (hloc : ∀ d ∈ ds, LocalOK cfg unr' d.pfx d.paths (f d.pfx d.paths).1 (f d.pfx d.paths).2) (fib : Fib) :
+    (∀ k : Key, (∀ d ∈ ds, ¬ owned d.pfx k) →
+        fibGet (fibReplay fib (fibReqs (trav f ds).2)) k.1 k.2 = fibGet fib k.1 k.2) ∧
+    (∀ d ∈ ds, CellsOK cfg fib d.pfx (eligible d.paths) →
+        CellsOK cfg (fibReplay fib (fibReqs (trav f ds).2)) d.pfx (eligible (f d.pfx d.paths).1)) := by
+  induction ds generalizing fib with
+  | nil => exact ⟨fun k _ => by simp [trav, fibReqs, fibReplay], fun d hd => by simp at hd⟩
+  | cons d ds ih =>
+    simp only [keys, map_cons, nodup_cons] at hn
+    have hl := hloc d (by simp)
+    obtain ⟨ihA, ihB⟩ := ih hn.2 (fun e he => hloc e (by simp [he]))
+      (fibReplay fib (fibReqs (f d.pfx d.paths).2))
+    have hreq : fibReqs (trav f (d :: ds)).2 = fibReqs (f d.pfx d.paths).2 ++ fibReqs (trav f ds).2 := by
+      rw [trav_cons, fibReqs_append]
+    rw [hreq, fibReplay_append]
+    constructor
+    · intro k hk
+      rw [ihA k (fun e he => hk e (by simp [he]))]
+      exact fibGet_frame fib hl.owned (hk d (by simp))
+    · intro e he hc
+      rcases mem_cons.mp he with rfl | he
+      · -- the head: its cells are set by its own requests and untouched by the rest
+        apply (hl.cells fib hc).transfer
+        intro k hk
+        apply ihA k
+        intro e' he' hown
+        have : e.pfx = e'.pfx := owned_inj hk hown
+        apply hn.1; rw [this]; exact mem_map.mpr ⟨e', he', rfl⟩
+      · apply ihB e he
+        apply hc.transfer
+        intro k hk
+        apply fibGet_frame fib hl.owned
+        intro hown
+        have : d.pfx = e.pfx := owned_inj hown hk
+        apply hn.1; rw [this]; exact mem_map.mpr ⟨e, he, rfl⟩
+
+
+-- ---------------------------------------------------------------- the global invariant
+
+/-- Model state `st`, the replay (`fib`, `refs`) of all requests issued so far and the reachability
+    reports so far (`unr`) are in step. -/
+structure Inv (cfg : Cfg) (st : St) (fib : Fib) (refs : Refs) (unr : List Addr) : Prop where
+  nodup : (keys st.dests).Nodup
+  sorted : ∀ d ∈ st.dests, Sorted d.paths
+  flags : ∀ d ∈ st.dests, FlagsOK unr d.paths
+  cells : ∀ p, CellsOK cfg fib p (eligible (lookupDest st.dests p))
+  refs : ∀ a, refGet refs a = usesAll a st.dests
+  inval : ∀ a, st.invalid.contains a = unr.contains a
+
+theorem Inv.sorted_lookup {cfg st fib refs unr} (h : Inv cfg st fib refs unr) (p : Pfx) :
+    Sorted (lookupDest st.dests p) := by
+  rcases lookupDest_cases st.dests p with h0 | ⟨d, hd, _, h2⟩
+  · rw [h0]; simp [Sorted]
+  · rw [← h2]; exact h.sorted d hd
+
+theorem Inv.flags_lookup {cfg st fib refs unr} (h : Inv cfg st fib refs unr) (p : Pfx) :
+    FlagsOK unr (lookupDest st.dests p) := by
+  rcases lookupDest_cases st.dests p with h0 | ⟨d, hd, _, h2⟩
+  · rw [h0]; intro x hx; simp at hx
+  · rw [← h2]; exact h.flags d hd
+
+/-- an operation on the single destination `p` -/
+theorem inv_setDest {cfg : Cfg} {st : St} {fib : Fib} {refs : Refs} {unr : List Addr}
+    (h : Inv cfg st fib refs unr) (p : Pfx) {ps' : List Path} {reqs : List Req}
+    (hl : LocalOK cfg unr p (lookupDest st.dests p) ps' reqs) (st' : St)
+    (hd : st'.dests = setDest st.dests p ps') (hi : st'.invalid = st.invalid) :
+    ∃ refs', refReplay refs (nhtReqs reqs) = some refs' ∧
+      Inv cfg st' (fibReplay fib (fibReqs reqs)) refs' unr := by
+  have hu1 := fun a => usesAll_setDest a p [] h.nodup
+  have hu2 := fun a => usesAll_setDest a p ps' h.nodup
+  obtain ⟨refs', e1, g1⟩ := hl.refs refs (fun a => usesAll a (setDest st.dests p []))
+    (by intro a; rw [h.refs a]; have := hu1 a; have e0 : usesPaths a [] = 0 := rfl; rw [e0] at this; omega)
+  refine ⟨refs', e1, ?_⟩
+  refine ⟨?_, ?_, ?_, ?_, ?_, ?_⟩
+  · rw [hd]; exact keys_setDest_nodup p ps' h.nodup
+  · intro d hdm
+    rw [hd] at hdm
+    rcases mem_setDest hdm with hdm | rfl
+    · exact h.sorted d hdm
+    · exact hl.sorted
+  · intro d hdm
+    rw [hd] at hdm
+    rcases mem_setDest hdm with hdm | rfl
+    · exact h.flags d hdm
+    · exact hl.flags
+  · intro q
+    rw [hd, lookupDest_setDest]
+    by_cases hq : q = p
+    · subst hq; simp only [if_true]; exact hl.cells fib (h.cells q)
+    · simp only [hq, if_false]
+      apply (h.cells q).transfer
+      intro k hk
+      apply fibGet_frame fib hl.owned
+      intro hown
+      exact hq (owned_inj hk hown)
+  · intro a
+    rw [g1 a, hd]
+    have h1 := hu1 a; have h2 := hu2 a
+    have e0 : usesPaths a [] = 0 := rfl
+    rw [e0] at h1; omega
+  · intro a; rw [hi]; exact h.inval a
+
+/-- an operation applied to every destination -/
+theorem inv_trav {cfg : Cfg} {st : St} {fib : Fib} {refs : Refs} {unr unr' : List Addr}
+    (h : Inv cfg st fib refs unr) (f : Pfx → List Path → List Path × List Req)
+    (hloc : ∀ q ps, Sorted ps → FlagsOK unr ps → LocalOK cfg unr' q ps (f q ps).1 (f q ps).2)
+    (hnil : ∀ q, (f q []).1 = []) (st' : St)
+    (hd : st'.dests = (trav f st.dests).1) (hi : ∀ a, st'.invalid.contains a = unr'.contains a) :
+    ∃ refs', refReplay refs (nhtReqs (trav f st.dests).2) = some refs' ∧
+      Inv cfg st' (fibReplay fib (fibReqs (trav f st.dests).2)) refs' unr' := by
+  have hlocd : ∀ d ∈ st.dests, LocalOK cfg unr' d.pfx d.paths (f d.pfx d.paths).1 (f d.pfx d.paths).2 :=
+    fun d hdm => hloc d.pfx d.paths (h.sorted d hdm) (h.flags d hdm)
+  obtain ⟨refs', e1, g1⟩ := trav_refs f hlocd refs (fun _ => 0) (by intro a; rw [h.refs a]; simp)
+  obtain ⟨hA, hB⟩ := trav_fib f h.nodup hlocd fib
+  refine ⟨refs', e1, ?_⟩
+  refine ⟨?_, ?_, ?_, ?_, ?_, hi⟩
+  · rw [hd]; exact h.nodup.sublist (keys_trav_sublist f st.dests)
+  · intro d hdm
+    rw [hd] at hdm
+    obtain ⟨e, he, rfl⟩ := mem_trav hdm
+    exact (hlocd e he).sorted
+  · intro d hdm
+    rw [hd] at hdm
+    obtain ⟨e, he, rfl⟩ := mem_trav hdm
+    exact (hlocd e he).flags
+  · intro q
+    rw [hd, lookupDest_trav f hnil h.nodup]
+    by_cases hq : q ∈ keys st.dests
+    · obtain ⟨d, hdm, rfl⟩ := mem_map.mp hq
+      have hc := h.cells d.pfx
+      rw [lookupDest_mem h.nodup hdm] at hc ⊢
+      exact hB d hdm hc
+    · have hc := h.cells q
+      rw [lookupDest_of_not_mem hq] at hc ⊢
+      have hn0 : (f q []).1 = [] := hnil q
+      rw [hn0]
+      apply hc.transfer
+      intro k hk
+      apply hA k
+      intro d hdm hown
+      apply hq
+      rw [owned_inj hk hown]; exact mem_map.mpr ⟨d, hdm, rfl⟩
+  · intro a; rw [g1 a, hd]; simp
+
+
+theorem fromAddr_isPeer {k : Nat} (hk : k < 100) {x : Path} (h : fromAddr k x = true) : isPeer x.src = true := by
+  unfold fromAddr addrKey at h
+  cases hp : isPeer x.src
+  · simp [hp, srcLocal] at h; omega
+  · rfl
+
+theorem invalid_update_contains (inv unr : List Addr) (a : Addr) (r : Bool) (h : ∀ b, inv.contains b = unr.contains b) (b : Addr) :
+    (if r then inv.filter (· != a) else if inv.contains a then inv else a :: inv).contains b =
+      (report unr (.nh a r)).contains b := by
+  rw [report_contains]
+  cases r
+  · simp only [Bool.false_eq_true, if_false, Bool.not_false]
+    by_cases hb : b = a
+    · subst hb
+      split
+      · rename_i hc; simpa using hc
+      · simp
+    · simp only [hb, if_false, ← h b]
+      split
+      · rfl
+      · simp [hb]
+  · simp only [if_true, Bool.not_true]
+    by_cases hb : b = a
+    · subst hb; simp
+    · have := h b
+      simp only [contains_eq_mem, decide_eq_decide] at this
+      simp [hb, this]
+
+theorem wf_peer_lt {cfg : Cfg} (hc : cfg.wf = true) {k : Nat} (hk : k < cfg.rids.length) : k < 100 := by
+  simp only [Cfg.wf, Bool.and_eq_true, decide_eq_true_eq] at hc
+  omega
+
+/-- Every history step keeps the invariant; the tracking requests never unregister an address
+    without outstanding registration. -/
+theorem step_inv {cfg : Cfg} {st : St} {fib : Fib} {refs : Refs} {unr : List Addr}
+    (hc : cfg.wf = true) (op : Op) (hop : op.wf cfg = true) (h : Inv cfg st fib refs unr) :
+    ∃ refs', refReplay refs (nhtReqs (step cfg st op).2) = some refs' ∧
+      Inv cfg (step cfg st op).1 (fibReplay fib (fibReqs (step cfg st op).2)) refs' (report unr op) := by
+  cases op with
+  | ins src p pid nh lp cl rts =>
+    exact inv_setDest h p (insertDest_local cfg st.policy st.invalid p src (sidOf st src) pid nh lp cl rts st.next
+      (h.sorted_lookup p) (h.flags_lookup p) h.inval) _ rfl rfl
+  | rm src p pid =>
+    exact inv_setDest h p (removeDest_local cfg p src pid (h.sorted_lookup p) (h.flags_lookup p)) _ rfl rfl
+  | down k =>
+    have hk : k < 100 := wf_peer_lt hc (by simpa [Op.wf] using hop)
+    exact inv_trav h (dropDest cfg (fromAddr k))
+      (fun q ps hs hf => dropDest_local cfg _ q (fun x hx => fromAddr_isPeer hk hx) hs hf)
+      (fun q => by simp [dropDest, dropPaths]) _ rfl h.inval
+  | stale k =>
+    exact inv_trav h (restaleDest cfg k)
+      (fun q ps hs hf => restaleDest_local cfg k q hs hf)
+      (fun q => by simp [restaleDest, restalePaths]) _ rfl h.inval
+  | purge k =>
+    have hk : k < 100 := wf_peer_lt hc (by simpa [Op.wf] using hop)
+    exact inv_trav h (dropDest cfg (fun e => fromAddr k e && e.stale))
+      (fun q ps hs hf => dropDest_local cfg _ q
+        (fun x hx => fromAddr_isPeer hk (by simp only [Bool.and_eq_true] at hx; exact hx.1)) hs hf)
+      (fun q => by simp [dropDest, dropPaths]) _ rfl h.inval
+  | soft k =>
+    exact inv_trav h (softDest cfg st.policy st.invalid k)
+      (fun q ps hs hf => softPaths_local cfg st.policy st.invalid q _ hs hf h.inval)
+      (fun q => by simp [softDest, softPaths]) _ rfl h.inval
+  | pol rules =>
+    refine ⟨refs, by simp [step, nhtReqs, refReplay], ?_⟩
+    simpa [step, fibReqs, fibReplay, report] using
+      (⟨h.nodup, h.sorted, h.flags, h.cells, h.refs, h.inval⟩ : Inv cfg { st with policy := rules } fib refs unr)
+  | nh a r =>
+    exact inv_trav h (validityDest cfg a r)
+      (fun q ps hs hf => validityDest_local cfg a r q hs hf)
+      (fun q => by simp [validityDest, validityPaths]) _ rfl
+      (fun b => invalid_update_contains st.invalid unr a r h.inval b)
+
+theorem inv_init (cfg : Cfg) : Inv cfg (St.init cfg) [] [] [] := by
+  refine ⟨by simp [St.init, keys], by simp [St.init], by simp [St.init], ?_, by simp [St.init, refGet, usesAll], by simp [St.init]⟩
+  intro p
+  simp only [St.init, lookupDest, find?_nil, eligible, filter_nil]
+  exact ⟨rfl, fun _ _ _ _ _ => rfl, fun _ b t e => by simp at e⟩
+
+
+-- ---------------------------------------------------------------- model order vs. the property's order
+
+theorem beats_iff (q p : PathObs) : beats q p = true ↔
+    (p.lp < q.lp ∨ (p.lp = q.lp ∧ (b2n p.eb < b2n q.eb ∨ (b2n p.eb = b2n q.eb ∧
+      (b2n q.stale < b2n p.stale ∨ (b2n q.stale = b2n p.stale ∧ q.cl < p.cl)))))) := by
+  unfold beats
+  by_cases h1 : q.lp = p.lp
+  · cases h2 : q.eb <;> cases h3 : p.eb <;> cases h4 : q.stale <;> cases h5 : p.stale <;>
+      simp [h1, b2n]
+  · have : (q.lp != p.lp) = true := by simpa using h1
+    simp only [this, if_true, decide_eq_true_eq]
+    omega
+
+theorem ecmpKey_eq_iff (x y : Path) : ecmpKey x = ecmpKey y ↔
+    (x.lp = y.lp ∧ b2n x.eb = b2n y.eb ∧ b2n x.stale = b2n y.stale ∧ x.cl = y.cl) := by
+  simp only [ecmpKey, Prod.mk.injEq, b2n_inj]
+
+theorem not_beats_of_ge {x y : Path} (h : cmpGe y x = true) : beats (pathObs y) (pathObs x) = false := by
+  apply Bool.eq_false_iff.mpr
+  intro hb
+  rw [beats_iff] at hb
+  rw [cmpGe_iff] at h
+  simp only [pathObs] at hb
+  omega
+
+theorem key_eq_of_ge_not_beats {x y : Path} (h : cmpGe y x = true)
+    (hb : beats (pathObs x) (pathObs y) = false) : ecmpKey x = ecmpKey y := by
+  have hb' : ¬ beats (pathObs x) (pathObs y) = true := by simp [hb]
+  rw [beats_iff] at hb'
+  rw [cmpGe_iff] at h
+  rw [ecmpKey_eq_iff]
+  simp only [pathObs] at hb'
+  have := b2n_le x.eb; have := b2n_le y.eb; have := b2n_le x.stale; have := b2n_le y.stale
+  omega
+
+theorem beats_congr (q p p' : PathObs) (h1 : p.lp = p'.lp) (h2 : p.eb = p'.eb) (h3 : p.stale = p'.stale)
+    (h4 : p.cl = p'.cl) : beats q p = beats q p' := by
+  unfold beats; rw [h1, h2, h3, h4]
+
+theorem beats_congr_key {p b : Path} (h : ecmpKey p = ecmpKey b) (q : PathObs) :
+    beats q (pathObs p) = beats q (pathObs b) := by
+  rw [ecmpKey_eq_iff] at h
+  exact beats_congr q _ _ h.1 (b2n_inj.mp h.2.1) (b2n_inj.mp h.2.2.1) h.2.2.2
+
+theorem key_sandwich {b x y : Path} (h1 : cmpGe x b = true) (h2 : cmpGe y x = true)
+    (h : ecmpKey y = ecmpKey b) : ecmpKey x = ecmpKey b := by
+  rw [ecmpKey_eq_iff] at *
+  rw [cmpGe_iff] at h1 h2
+  omega
+
+theorem rid_le_of_ge_not_beats {q b : Path} (h : cmpGe q b = true)
+    (hb : beats (pathObs b) (pathObs q) = false) : b.rid ≤ q.rid := by
+  have hb' : ¬ beats (pathObs b) (pathObs q) = true := by simp [hb]
+  rw [beats_iff] at hb'
+  rw [cmpGe_iff] at h
+  simp only [pathObs] at hb'
+  omega
+
+theorem takeWhile_eq_filter_of_closed {P : Path → Bool} {l : List Path}
+    (h : l.Pairwise (fun x y => P y = true → P x = true)) : l.takeWhile P = l.filter P := by
+  induction l with
+  | nil => rfl
+  | cons a t ih =>
+    rw [pairwise_cons] at h
+    rw [takeWhile_cons, filter_cons]
+    cases hp : P a
+    · simp only [Bool.false_eq_true, if_false]
+      symm
+      apply filter_eq_nil_iff.mpr
+      intro y hy hpy
+      have := h.1 y hy hpy
+      simp [hp] at this
+    · simp only [if_true]; rw [ih h.2]
+
+/-- in table order the paths tied with the head before the router-id step are a leading run -/
+theorem ecmpPaths_eq_filter {b : Path} {t : List Path} (hs : Sorted (b :: t)) :
+    ecmpPaths (b :: t) = (b :: t).filter (fun p => ecmpKey p == ecmpKey b) := by
+  unfold ecmpPaths
+  apply takeWhile_eq_filter_of_closed
+  have hmin : ∀ x ∈ b :: t, cmpGe x b = true := by
+    intro x hx
+    rcases mem_cons.mp hx with rfl | hx
+    · exact cmpGe_refl _
+    · unfold Sorted at hs; exact (pairwise_cons.mp hs).1 x hx
+  unfold Sorted at hs
+  have : ∀ x y, x ∈ b :: t → y ∈ b :: t → cmpGe y x = true →
+      (ecmpKey y == ecmpKey b) = true → (ecmpKey x == ecmpKey b) = true := by
+    intro x y hx _ hxy hy
+    have hy' : ecmpKey y = ecmpKey b := by simpa using hy
+    simpa using key_sandwich (hmin x hx) hxy hy'
+  exact hs.imp_of_mem (fun {x y} hx hy hxy => this x y hx hy hxy)
+
+/-- The property's "best path and the paths tied with it before the router-id step" is what
+    `ecmp_paths` yields on a list in table order. -/
+theorem spec_ecmp_eq {E : List Path} (hs : Sorted E) :
+    Spec.ecmp (E.map pathObs) = (ecmpPaths E).map pathObs := by
+  cases E with
+  | nil => rfl
+  | cons b t =>
+    rw [ecmpPaths_eq_filter hs]
+    unfold Spec.ecmp
+    rw [filter_map]
+    congr 1
+    apply filter_congr
+    intro p hp
+    have hmin : ∀ x ∈ b :: t, cmpGe x b = true := by
+      intro x hx
+      rcases mem_cons.mp hx with rfl | hx
+      · exact cmpGe_refl _
+      · unfold Sorted at hs; exact (pairwise_cons.mp hs).1 x hx
+    simp only [Function.comp]
+    cases hk : (ecmpKey p == ecmpKey b)
+    · -- p is not tied with the head: the head beats it
+      apply Bool.eq_false_iff.mpr
+      intro hall
+      have hall' := all_eq_true.mp hall (pathObs b) (mem_map.mpr ⟨b, by simp, rfl⟩)
+      have hnb : beats (pathObs b) (pathObs p) = false := by simpa using hall'
+      have := key_eq_of_ge_not_beats (hmin p hp) hnb
+      simp [this] at hk
+    · have hk' : ecmpKey p = ecmpKey b := by simpa using hk
+      apply all_eq_true.mpr
+      intro q hq
+      obtain ⟨x, hx, rfl⟩ := mem_map.mp hq
+      rw [beats_congr_key hk', not_beats_of_ge (hmin x hx)]
+      rfl
+
+/-- the head of the eligible list in table order is a best path in the property's sense -/
+theorem head_mem_bests {b : Path} {t : List Path} (hs : Sorted (b :: t)) :
+    pathObs b ∈ Spec.bests ((b :: t).map pathObs) := by
+  unfold Spec.bests
+  apply mem_filter.mpr
+  refine ⟨mem_map.mpr ⟨b, by simp, rfl⟩, ?_⟩
+  apply all_eq_true.mpr
+  intro q hq
+  obtain ⟨x, hx, rfl⟩ := mem_map.mp hq
+  have hge : cmpGe x b = true := by
+    rcases mem_cons.mp hx with rfl | hx
+    · exact cmpGe_refl _
+    · unfold Sorted at hs; exact (pairwise_cons.mp hs).1 x hx
+  unfold beatsRid
+  rw [not_beats_of_ge hge]
+  cases hb : beats (pathObs b) (pathObs x)
+  · have := rid_le_of_ge_not_beats hge hb
+    simp only [pathObs] at this ⊢
+    simp only [Bool.false_or, Bool.not_false, Bool.true_and, Bool.not_eq_true']
+    exact decide_eq_false (by omega)
+  · simp
+
+
+-- ---------------------------------------------------------------- the reference checker on model runs
+
+theorem ribGet_map (ds : List Dest) (p : Pfx) :
+    ribGet (ds.map destObs) p = (lookupDest ds p).map pathObs := by
+  induction ds with
+  | nil => rfl
+  | cons d ds ih =>
+    rw [lookupDest_cons]
+    unfold ribGet at ih ⊢
+    rw [map_cons, find?_cons]
+    by_cases h : d.pfx = p
+    · simp [destObs, h]
+    · have : ((destObs d).pfx == p) = false := by simpa [destObs] using h
+      simp only [this, h, if_false]
+      exact ih
+
+theorem uses_map (ds : List Dest) (a : Addr) : uses (ds.map destObs) a = usesAll a ds := by
+  unfold uses usesAll
+  rw [map_map]
+  congr 1
+  apply map_congr_left
+  intro d _
+  simp only [Function.comp, destObs, usesPaths, filter_map, length_map]
+  rfl
+
+theorem spec_eligible_map {unr : List Addr} {ps : List Path} (hf : FlagsOK unr ps) :
+    Spec.eligible unr (ps.map pathObs) = (eligible ps).map pathObs := by
+  unfold Spec.eligible eligible
+  rw [filter_map]
+  congr 1
+  apply filter_congr
+  intro x hx
+  simp only [Function.comp, pathObs, hf x hx]
+
+theorem firstSome_none {α} {f : α → Option String} {l : List α} (h : ∀ x ∈ l, f x = none) :
+    firstSome f l = none := by
+  induction l with
+  | nil => rfl
+  | cons x xs ih =>
+    simp only [firstSome, h x (by simp)]
+    exact ih (fun y hy => h y (by simp [hy]))
+
+theorem sameSet_refl (l : List Addr) : sameSet l l = true := by
+  simp [sameSet, subset]
+
+theorem want_spec {unr : List Addr} {ps : List Path} (hs : Sorted ps) (hf : FlagsOK unr ps) :
+    (Spec.ecmp (Spec.eligible unr (ps.map pathObs))).map (·.nh) = want (eligible ps) := by
+  rw [spec_eligible_map hf, spec_ecmp_eq hs.eligible, map_map]
+  rfl
+
+theorem want_reachable {unr : List Addr} {ps : List Path} (hf : FlagsOK unr ps) :
+    (want (eligible ps)).any (fun a => unr.contains a) = false := by
+  apply Bool.eq_false_iff.mpr
+  intro h
+  obtain ⟨a, ha, hu⟩ := any_eq_true.mp h
+  obtain ⟨x, hx, rfl⟩ := mem_map.mp ha
+  have hxe : x ∈ eligible ps := by
+    cases he : eligible ps with
+    | nil => rw [he] at hx; simp [ecmpPaths] at hx
+    | cons b t =>
+      rw [he] at hx
+      unfold ecmpPaths at hx
+      exact (takeWhile_sublist _).subset hx
+  obtain ⟨hxp, hel⟩ := mem_filter.mp hxe
+  have : x.inv = false := by
+    simp only [Bool.and_eq_true, Bool.not_eq_true'] at hel; exact hel.2
+  rw [hf x hxp] at this
+  rw [this] at hu; simp at hu
+
+theorem checkMainPfx_ok {cfg st fib refs unr} (h : Inv cfg st fib refs unr) (p : Pfx) :
+    checkMainPfx unr fib (st.dests.map destObs) p = none := by
+  unfold checkMainPfx
+  split
+  · rfl
+  · dsimp only
+    rw [ribGet_map, want_spec (h.sorted_lookup p) (h.flags_lookup p), (h.cells p).main,
+      want_reachable (h.flags_lookup p), sameSet_refl]
+    simp
+
+theorem checkVrfPfx_ok {cfg st fib refs unr} (h : Inv cfg st fib refs unr) (v : Vrf) (hv : v ∈ cfg.vrfs) (p : Pfx) :
+    checkVrfPfx unr fib (st.dests.map destObs) v p = none := by
+  unfold checkVrfPfx
+  split
+  · rfl
+  · rename_i hcond
+    have hcond' : p.isVpn = true ∧ v.tid ≠ 0 := by
+      simp only [Bool.or_eq_true, Bool.not_eq_true', beq_iff_eq, not_or] at hcond
+      exact ⟨by simpa using hcond.1, hcond.2⟩
+    dsimp only
+    rw [ribGet_map, spec_eligible_map (h.flags_lookup p)]
+    have hs := (h.sorted_lookup p).eligible
+    cases he : eligible (lookupDest st.dests p) with
+    | nil =>
+      have := (h.cells p).vrfNil hcond'.1 he v hv hcond'.2
+      simp [this]
+    | cons b t =>
+      rw [he] at hs
+      simp only [map_cons, isEmpty_cons, Bool.false_eq_true, if_false]
+      split
+      · rename_i hall
+        have hb : rtMatch v (pathObs b) = true := by
+          have := all_eq_true.mp hall (pathObs b) (by simpa using head_mem_bests hs)
+          exact this
+        have himp : canImport v b.rts = true := by simpa [rtMatch, canImport, pathObs] using hb
+        have hcell := (h.cells p).vrfImp hcond'.1 b t he v hv hcond'.2 himp
+        have hw := want_spec (h.sorted_lookup p) (h.flags_lookup p)
+        rw [spec_eligible_map (h.flags_lookup p), he] at hw
+        simp only [map_cons] at hw
+        rw [hw, hcell, ← he, want_reachable (h.flags_lookup p), sameSet_refl]
+        simp
+      · rfl
+
+theorem checkRef_ok {cfg st fib refs unr} (h : Inv cfg st fib refs unr) (a : Addr) :
+    checkRef refs (st.dests.map destObs) a = none := by
+  unfold checkRef
+  rw [uses_map, h.refs a]; simp
+
+theorem checkStep_ok {cfg st fib refs unr} (h : Inv cfg st fib refs unr) :
+    checkStep cfg unr fib refs (st.dests.map destObs) = none := by
+  unfold checkStep
+  dsimp only
+  rw [firstSome_none (fun p _ => checkMainPfx_ok h p)]
+  dsimp only
+  rw [firstSome_none (fun v hv => firstSome_none (fun p _ => checkVrfPfx_ok h v hv p))]
+  dsimp only
+  exact firstSome_none (fun a _ => checkRef_ok h a)
+
+theorem checkFrom_run {cfg : Cfg} (hc : cfg.wf = true) (ops : List Op) :
+    ∀ (st : St) (fib : Fib) (refs : Refs) (unr : List Addr) (i : Nat),
+      ops.all (Op.wf cfg) = true → Inv cfg st fib refs unr →
+      checkFrom cfg i fib refs unr ops (obsOfRun (runFrom cfg st ops)) = .ok := by
+  induction ops with
+  | nil => intro st fib refs unr i _ _; simp [runFrom, obsOfRun, checkFrom]
+  | cons op ops ih =>
+    intro st fib refs unr i hwf h
+    simp only [all_cons, Bool.and_eq_true] at hwf
+    obtain ⟨refs', e1, hinv⟩ := step_inv hc op hwf.1 h
+    simp only [runFrom, obsOfRun, map_cons, obsOfStep, checkFrom, e1, checkStep_ok hinv]
+    exact ih _ _ _ _ _ hwf.2 hinv
+
+
+-- ---------------------------------------------------------------- histories
+
+/-- model state after a history -/
+def stAfter (cfg : Cfg) (st : St) : List Op → St
+  | [] => st
+  | op :: ops => stAfter cfg (step cfg st op).1 ops
+
+/-- every request issued during a history, in order -/
+def allReqs (cfg : Cfg) (st : St) : List Op → List Req
+  | [] => []
+  | op :: ops => (step cfg st op).2 ++ allReqs cfg (step cfg st op).1 ops
+
+/-- addresses whose last reachability report in the history said "unreachable" -/
+def reports (unr : List Addr) : List Op → List Addr
+  | [] => unr
+  | op :: ops => reports (report unr op) ops
+
+theorem inv_after {cfg : Cfg} (hc : cfg.wf = true) (ops : List Op) :
+    ∀ (st : St) (fib : Fib) (refs : Refs) (unr : List Addr),
+      ops.all (Op.wf cfg) = true → Inv cfg st fib refs unr →
+      ∃ refs', refReplay refs (nhtReqs (allReqs cfg st ops)) = some refs' ∧
+        Inv cfg (stAfter cfg st ops) (fibReplay fib (fibReqs (allReqs cfg st ops))) refs' (reports unr ops) := by
+  induction ops with
+  | nil => intro st fib refs unr _ h; exact ⟨refs, by simp [allReqs, nhtReqs, refReplay], by simpa [allReqs, stAfter, fibReqs, fibReplay, reports] using h⟩
+  | cons op ops ih =>
+    intro st fib refs unr hwf h
+    simp only [all_cons, Bool.and_eq_true] at hwf
+    obtain ⟨refs1, e1, h1⟩ := step_inv hc op hwf.1 h
+    obtain ⟨refs2, e2, h2⟩ := ih _ _ _ _ hwf.2 h1
+    refine ⟨refs2, ?_, ?_⟩
+    · simp only [allReqs, nhtReqs_append, refReplay_append, e1]; exact e2
+    · simpa only [allReqs, stAfter, reports, fibReqs_append, fibReplay_append] using h2
+
+-- ---------------------------------------------------------------- run_service_loop
+
+theorem watchedGet_filter_ne (w : Watched) (a b : Addr) :
+    watchedGet (w.filter (fun e => !(e.1 == a))) b = if b = a then 0 else watchedGet w b := by
+  unfold watchedGet
+  rw [find?_filter_ne]
+  by_cases h : b = a <;> simp [h]
+
+theorem watchedGet_cons (w : Watched) (a n b : Addr) :
+    watchedGet ((a, n) :: w) b = if b = a then n else watchedGet w b := by
+  unfold watchedGet
+  rw [find?_cons]
+  by_cases h : b = a
+  · subst h; simp
+  · have : (a == b) = false := by simpa using fun e : a = b => h e.symm
+    simp [this, h]
+
+theorem svcRegister_get (w : Watched) (a b : Addr) :
+    watchedGet (svcRegister w a).1 b = if b = a then watchedGet w a + 1 else watchedGet w b := by
+  unfold svcRegister
+  dsimp only
+  rw [watchedGet_cons, watchedGet_filter_ne]
+  by_cases h : b = a <;> simp [h]
+
+theorem svcUnregister_get (w : Watched) (a b : Addr) :
+    watchedGet (svcUnregister w a) b = if b = a then watchedGet w a - 1 else watchedGet w b := by
+  unfold svcUnregister
+  split
+  · rw [watchedGet_filter_ne]
+    by_cases h : b = a
+    · subst h; simp; omega
+    · simp [h]
+  · rw [watchedGet_cons, watchedGet_filter_ne]
+    by_cases h : b = a <;> simp [h]
+
+/-- the `watched` map of the service loop and the reference fold agree request by request -/
+theorem svcRun_refines (reqs : List (Bool × Addr)) :
+    ∀ (w : Watched) (r : Refs), (∀ a, watchedGet w a = refGet r a) →
+      (svcRun w reqs).1 = (svcExpect r reqs).1 ∧
+      ∀ a, watchedGet (svcRun w reqs).2 a = refGet (svcExpect r reqs).2 a := by
+  induction reqs with
+  | nil => intro w r h; exact ⟨rfl, h⟩
+  | cons x reqs ih =>
+    intro w r h
+    obtain ⟨k, a⟩ := x
+    cases k
+    · simp only [svcRun, svcExpect]
+      have := ih (svcUnregister w a) (refSet r a (refGet r a - 1)) (by
+        intro b; rw [svcUnregister_get, refGet_refSet, h a, h b])
+      exact ⟨by rw [this.1], this.2⟩
+    · simp only [svcRun, svcExpect]
+      have := ih (svcRegister w a).1 (refSet r a (refGet r a + 1)) (by
+        intro b; rw [svcRegister_get, refGet_refSet, h a, h b])
+      refine ⟨?_, this.2⟩
+      rw [this.1]
+      simp [svcRegister, h a]
+
+/-- on a log that never unregisters without outstanding registration the saturating fold of the
+    service and the plain fold of the reference checker coincide -/
+theorem svcExpect_of_replay (log : List (Bool × Addr)) :
+    ∀ (r r' : Refs), refReplay r log = some r' → ∀ a, refGet (svcExpect r log).2 a = refGet r' a := by
+  induction log with
+  | nil => intro r r' h a; simp [refReplay] at h; simp [svcExpect, h]
+  | cons x log ih =>
+    intro r r' h a
+    obtain ⟨k, b⟩ := x
+    cases k
+    · simp only [refReplay] at h
+      split at h
+      · simp at h
+      · simp only [svcExpect]; exact ih _ _ h a
+    · simp only [refReplay] at h
+      simp only [svcExpect]; exact ih _ _ h a
+
+
+-- ---------------------------------------------------------------- canonical observations
+-- The harness cannot reproduce the model's request order between different destinations (hash
+-- maps), so both sides print a canonical order.  The reference checker's verdict does not depend
+-- on it: the lemmas below carry the invariant through `canonStep`.
+
+section GenericSort
+variable {α : Type} (le : α → α → Bool)
+
+def SortedBy (l : List α) : Prop := l.Pairwise (fun x y => le x y = true)
+
+theorem mem_insertBy {x y : α} {l : List α} : y ∈ insertBy le x l ↔ y = x ∨ y ∈ l := by
+  induction l with
+  | nil => simp [insertBy]
+  | cons a t ih =>
+    unfold insertBy
+    split
+    · simp only [mem_cons, ih]; grind
+    · simp only [mem_cons]
+
+theorem insertBy_perm (x : α) (l : List α) : (insertBy le x l).Perm (x :: l) := by
+  induction l with
+  | nil => simp [insertBy]
+  | cons a t ih =>
+    unfold insertBy
+    split
+    · exact (Perm.cons a ih).trans (Perm.swap x a t)
+    · exact Perm.refl _
+
+theorem sortBy_perm (l : List α) : (sortBy le l).Perm l := by
+  have : ∀ acc : List α, (l.foldl (fun acc p => insertBy le p acc) acc).Perm (l ++ acc) := by
+    induction l with
+    | nil => intro acc; simp
+    | cons a t ih =>
+      intro acc
+      simp only [foldl_cons]
+      refine (ih _).trans ?_
+      refine (Perm.append_left t (insertBy_perm le a acc)).trans ?_
+      simp [perm_middle]
+  simpa [sortBy] using this []
+
+variable (htot : ∀ x y, le x y = false → le y x = true)
+variable (htrans : ∀ x y z, le x y = true → le y z = true → le x z = true)
+include htot htrans
+
+theorem insertBy_sorted {x : α} {l : List α} (h : SortedBy le l) : SortedBy le (insertBy le x l) := by
+  induction l with
+  | nil => simp [insertBy, SortedBy]
+  | cons a t ih =>
+    unfold SortedBy at h
+    rw [pairwise_cons] at h
+    unfold insertBy
+    split
+    · rename_i hle
+      unfold SortedBy
+      rw [pairwise_cons]
+      refine ⟨?_, ih h.2⟩
+      intro y hy
+      rcases (mem_insertBy le).mp hy with rfl | hy
+      · exact hle
+      · exact h.1 y hy
+    · rename_i hlt
+      have hlt : le a x = false := by simpa using hlt
+      unfold SortedBy
+      rw [pairwise_cons, pairwise_cons]
+      refine ⟨?_, h⟩
+      intro y hy
+      rcases mem_cons.mp hy with rfl | hy
+      · exact htot _ _ hlt
+      · exact htrans _ _ _ (htot _ _ hlt) (h.1 y hy)
+
+theorem filter_insertBy {x : α} {l : List α} (P : α → Bool) (h : SortedBy le l) :
+    (insertBy le x l).filter P = if P x then insertBy le x (l.filter P) else l.filter P := by
+  induction l with
+  | nil => simp [insertBy]; split <;> simp_all
+  | cons a t ih =>
+    unfold SortedBy at h
+    rw [pairwise_cons] at h
+    by_cases hle : le a x = true
+    · have e1 : insertBy le x (a :: t) = a :: insertBy le x t := by simp [insertBy, hle]
+      rw [e1, filter_cons, ih h.2]
+      by_cases hpa : P a = true
+      · simp only [hpa, if_true, filter_cons]
+        split
+        · simp [insertBy, hle]
+        · rfl
+      · simp only [hpa, filter_cons]
+        simp
+    · have hlt : le a x = false := by simpa using hle
+      have e1 : insertBy le x (a :: t) = x :: a :: t := by simp [insertBy, hlt]
+      rw [e1]
+      have hall : ∀ y ∈ (a :: t).filter P, le y x = false := by
+        intro y hy
+        have hy' := (mem_filter.mp hy).1
+        rcases mem_cons.mp hy' with rfl | hy'
+        · exact hlt
+        · -- a ≤ y and ¬ a ≤ x give ¬ y ≤ x
+          apply Bool.eq_false_iff.mpr
+          intro hyx
+          have := htrans _ _ _ (h.1 y hy') hyx
+          rw [hlt] at this; exact absurd this (by simp)
+      by_cases hpe : P x = true
+      · simp only [hpe, if_true]
+        rw [filter_cons]; simp only [hpe, if_true]
+        generalize hf : (a :: t).filter P = f at hall
+        cases f with
+        | nil => simp [insertBy]
+        | cons b f' => simp [insertBy, hall b (by simp)]
+      · rw [filter_cons]; simp [hpe]
+
+theorem foldl_insertBy_sorted (l acc : List α) (h : SortedBy le acc) :
+    SortedBy le (l.foldl (fun acc p => insertBy le p acc) acc) := by
+  induction l generalizing acc with
+  | nil => simpa
+  | cons a t ih => exact ih _ (insertBy_sorted le htot htrans h)
+
+theorem filter_sortBy (P : α → Bool) (l : List α) : (sortBy le l).filter P = sortBy le (l.filter P) := by
+  have : ∀ acc : List α, SortedBy le acc →
+      (l.foldl (fun acc p => insertBy le p acc) acc).filter P =
+        (l.filter P).foldl (fun acc p => insertBy le p acc) (acc.filter P) := by
+    induction l with
+    | nil => intro acc _; simp
+    | cons a t ih =>
+      intro acc h
+      simp only [foldl_cons]
+      rw [ih _ (insertBy_sorted le htot htrans h), filter_insertBy le htot htrans P h]
+      by_cases hpa : P a = true
+      · simp [hpa]
+      · simp [hpa]
+  simpa [sortBy] using this [] (by simp [SortedBy])
+
+omit htot htrans in
+theorem insertBy_append_of_le {x : α} {l : List α} (h : ∀ a ∈ l, le a x = true) : insertBy le x l = l ++ [x] := by
+  induction l with
+  | nil => simp [insertBy]
+  | cons a t ih =>
+    simp only [insertBy, h a (by simp), if_true, cons_append]
+    rw [ih (fun y hy => h y (by simp [hy]))]
+
+omit htot htrans in
+theorem foldl_insertBy_of_all_le (l acc : List α) (hh : ∀ x ∈ acc ++ l, ∀ y ∈ acc ++ l, le x y = true) :
+    l.foldl (fun acc p => insertBy le p acc) acc = acc ++ l := by
+  induction l generalizing acc with
+  | nil => simp
+  | cons a t ih =>
+    have h1 : insertBy le a acc = acc ++ [a] :=
+      insertBy_append_of_le le (fun x hx => hh x (by simp [hx]) a (by simp))
+    simp only [foldl_cons, h1]
+    rw [ih (acc ++ [a]) (by simpa using hh)]
+    simp
+
+omit htot htrans in
+/-- a list whose elements are pairwise `le` in both directions is left alone by the stable sort -/
+theorem sortBy_of_all_le {l : List α} (h : ∀ x ∈ l, ∀ y ∈ l, le x y = true) : sortBy le l = l := by
+  simpa [sortBy] using foldl_insertBy_of_all_le le l [] (by simpa using h)
+
+end GenericSort
+
+theorem lex3_total (a b : Nat × Nat × Nat) (h : lex3 a b = false) : lex3 b a = true := by
+  unfold lex3 at *
+  simp only [Bool.or_eq_false_iff, Bool.and_eq_false_iff, decide_eq_false_iff_not, beq_eq_false_iff_ne] at h
+  simp only [Bool.or_eq_true, Bool.and_eq_true, decide_eq_true_eq, beq_iff_eq]
+  omega
+
+theorem lex3_trans (a b c : Nat × Nat × Nat) (h1 : lex3 a b = true) (h2 : lex3 b c = true) : lex3 a c = true := by
+  unfold lex3 at *
+  simp only [Bool.or_eq_true, Bool.and_eq_true, decide_eq_true_eq, beq_iff_eq] at *
+  omega
+
+theorem lex3_refl (a : Nat × Nat × Nat) : lex3 a a = true := by
+  unfold lex3; simp
+
+/-- `lastNhs` only looks at the requests for the key -/
+theorem lastNhs_filter (rs : List FibReq) (k : Key) :
+    lastNhs (rs.filter (fun r => (r.table, r.pfx) == k)) k = lastNhs rs k := by
+  induction rs with
+  | nil => rfl
+  | cons r rs ih =>
+    rw [filter_cons]
+    by_cases hk : (r.table, r.pfx) = k
+    · have : ((r.table, r.pfx) == k) = true := by simpa using hk
+      simp only [this, if_true, lastNhs, ih]
+    · have : ((r.table, r.pfx) == k) = false := by simpa using hk
+      simp only [this, Bool.false_eq_true, if_false, lastNhs, ih, hk]
+      cases lastNhs rs k <;> rfl
+
+theorem fibGet_sortBy (fib : Fib) (rs : List FibReq) (t : Nat) (q : Pfx) :
+    fibGet (fibReplay fib (sortBy fibLe rs)) t q = fibGet (fibReplay fib rs) t q := by
+  rw [fibGet_replay, fibGet_replay]
+  congr 1
+  rw [← lastNhs_filter (sortBy fibLe rs), ← lastNhs_filter rs,
+    filter_sortBy fibLe (fun x y h => lex3_total _ _ h) (fun x y z h1 h2 => lex3_trans _ _ _ h1 h2)]
+  congr 1
+  apply sortBy_of_all_le
+  intro x hx y hy
+  have hx' : (x.table, x.pfx) = (t, q) := by simpa using (mem_filter.mp hx).2
+  have hy' : (y.table, y.pfx) = (t, q) := by simpa using (mem_filter.mp hy).2
+  simp only [Prod.mk.injEq] at hx' hy'
+  unfold fibLe
+  rw [hx'.1, hx'.2, hy'.1, hy'.2]
+  exact lex3_refl _
+
+-- tracking requests
+
+theorem countAddr_perm {a : Addr} {l l' : List Addr} (h : l.Perm l') : countAddr a l = countAddr a l' :=
+  (h.filter _).length_eq
+
+theorem refReplay_regs {refs : Refs} (l : List Addr) :
+    ∃ refs', refReplay refs (l.map (fun a => (true, a))) = some refs' ∧
+      ∀ a, refGet refs' a = refGet refs a + countAddr a l := by
+  induction l generalizing refs with
+  | nil => exact ⟨refs, by simp [refReplay], by simp [countAddr]⟩
+  | cons x l ih =>
+    obtain ⟨refs', e, g⟩ := @ih (refSet refs x (refGet refs x + 1))
+    refine ⟨refs', by simpa [refReplay] using e, ?_⟩
+    intro a
+    rw [g a, refGet_refSet]
+    by_cases ha : a = x
+    · subst ha; simp [countAddr]; omega
+    · have : ¬ x = a := fun e => ha e.symm
+      simp [ha, countAddr, this]
+
+/-- counting form of a successful replay -/
+theorem refReplay_count {log : List (Bool × Addr)} :
+    ∀ {refs refs' : Refs}, refReplay refs log = some refs' →
+      ∀ a, refGet refs' a + countAddr a (unregsOf log) = refGet refs a + countAddr a (regsOf log) := by
+  induction log with
+  | nil => intro refs refs' h a; simp [refReplay] at h; simp [h, unregsOf, regsOf]
+  | cons x log ih =>
+    intro refs refs' h a
+    obtain ⟨k, b⟩ := x
+    cases k
+    · simp only [refReplay] at h
+      split at h
+      · simp at h
+      · rename_i hne
+        have := ih h a
+        rw [refGet_refSet] at this
+        simp only [unregsOf, regsOf]
+        by_cases hab : a = b
+        · subst hab; simp [countAddr] at this ⊢; omega
+        · have hba : ¬ b = a := fun e => hab e.symm
+          simp [hab, countAddr, hba] at this ⊢; omega
+    · simp only [refReplay] at h
+      have := ih h a
+      rw [refGet_refSet] at this
+      simp only [unregsOf, regsOf]
+      by_cases hab : a = b
+      · subst hab; simp [countAddr] at this ⊢; omega
+      · have hba : ¬ b = a := fun e => hab e.symm
+        simp [hab, countAddr, hba] at this ⊢; omega
+
+/-- a log that replays in the order issued also replays in canonical order, to the same counts -/
+theorem refReplay_canon {log : List (Bool × Addr)} {refs refs' : Refs} (h : refReplay refs log = some refs') :
+    ∃ refs'', refReplay refs (canonNht log) = some refs'' ∧ ∀ a, refGet refs'' a = refGet refs' a := by
+  unfold canonNht
+  obtain ⟨r1, e1, g1⟩ := @refReplay_regs refs (sortBy natLe (regsOf log))
+  have hc := refReplay_count h
+  obtain ⟨r2, e2, g2⟩ := @refReplay_unregs r1 (fun a => refGet refs' a) (sortBy natLe (unregsOf log)) (by
+    intro a
+    rw [g1 a, countAddr_perm (sortBy_perm natLe _), countAddr_perm (sortBy_perm natLe (unregsOf log))]
+    have := hc a; omega)
+  exact ⟨r2, by rw [refReplay_append, e1]; exact e2, g2⟩
+
+-- destinations
+
+theorem lookupDest_perm {ds ds' : List Dest} (hp : ds'.Perm ds) (hn : (keys ds).Nodup) (p : Pfx) :
+    lookupDest ds' p = lookupDest ds p := by
+  have hn' : (keys ds').Nodup := (hp.map _).nodup_iff.mpr hn
+  by_cases hm : p ∈ keys ds
+  · obtain ⟨d, hd, rfl⟩ := mem_map.mp hm
+    rw [lookupDest_mem hn hd, lookupDest_mem hn' (hp.mem_iff.mpr hd)]
+  · have hm' : p ∉ keys ds' := fun h => hm ((hp.map _).mem_iff.mp h)
+    rw [lookupDest_of_not_mem hm, lookupDest_of_not_mem hm']
+
+theorem usesAll_perm {a : Addr} {ds ds' : List Dest} (hp : ds'.Perm ds) : usesAll a ds' = usesAll a ds := by
+  induction hp with
+  | nil => rfl
+  | cons x _ ih => simp [usesAll_cons, ih]
+  | swap x y l => simp [usesAll_cons]; omega
+  | trans _ _ ih1 ih2 => rw [ih1, ih2]
+
+theorem Inv.perm {cfg st fib refs unr} (h : Inv cfg st fib refs unr) (st' : St)
+    (hp : st'.dests.Perm st.dests) (hi : st'.invalid = st.invalid) : Inv cfg st' fib refs unr :=
+  ⟨(hp.map _).nodup_iff.mpr h.nodup,
+   fun d hd => h.sorted d (hp.mem_iff.mp hd),
+   fun d hd => h.flags d (hp.mem_iff.mp hd),
+   fun p => by rw [lookupDest_perm hp h.nodup]; exact h.cells p,
+   fun a => by rw [usesAll_perm hp]; exact h.refs a,
+   fun a => by rw [hi]; exact h.inval a⟩
+
+theorem Inv.transfer {cfg st fib refs unr} (h : Inv cfg st fib refs unr) {fib2 : Fib} {refs2 : Refs}
+    (hf : ∀ t q, fibGet fib2 t q = fibGet fib t q) (hr : ∀ a, refGet refs2 a = refGet refs a) :
+    Inv cfg st fib2 refs2 unr :=
+  ⟨h.nodup, h.sorted, h.flags, fun p => (h.cells p).transfer (fun k _ => hf k.1 k.2),
+   fun a => by rw [hr a]; exact h.refs a, h.inval⟩
+
+def destLeM (a b : Dest) : Bool := lex3 (a.pfx.fam, a.pfx.id, 0) (b.pfx.fam, b.pfx.id, 0)
+
+theorem map_insertBy_destObs (x : Dest) (l : List Dest) :
+    (insertBy destLeM x l).map destObs = insertBy destLe (destObs x) (l.map destObs) := by
+  induction l with
+  | nil => rfl
+  | cons a t ih =>
+    unfold insertBy
+    have : destLe (destObs a) (destObs x) = destLeM a x := rfl
+    simp only [map_cons, this]
+    split
+    · simp [ih]
+    · simp
+
+theorem sortBy_map_destObs (l : List Dest) : sortBy destLe (l.map destObs) = (sortBy destLeM l).map destObs := by
+  have : ∀ acc : List Dest, (l.map destObs).foldl (fun acc p => insertBy destLe p acc) (acc.map destObs) =
+      (l.foldl (fun acc p => insertBy destLeM p acc) acc).map destObs := by
+    induction l with
+    | nil => intro acc; rfl
+    | cons a t ih =>
+      intro acc
+      simp only [map_cons, foldl_cons, ← map_insertBy_destObs]
+      exact ih _
+  simpa [sortBy] using this []
+
+theorem checkFrom_run_canon {cfg : Cfg} (hc : cfg.wf = true) (ops : List Op) :
+    ∀ (st : St) (fib : Fib) (refs : Refs) (unr : List Addr) (i : Nat),
+      ops.all (Op.wf cfg) = true → Inv cfg st fib refs unr →
+      checkFrom cfg i fib refs unr ops ((obsOfRun (runFrom cfg st ops)).map canonStep) = .ok := by
+  induction ops with
+  | nil => intro st fib refs unr i _ _; simp [runFrom, obsOfRun, checkFrom]
+  | cons op ops ih =>
+    intro st fib refs unr i hwf h
+    simp only [all_cons, Bool.and_eq_true] at hwf
+    obtain ⟨refs', e1, hinv⟩ := step_inv hc op hwf.1 h
+    obtain ⟨refs'', e2, g2⟩ := refReplay_canon e1
+    have hinv2 : Inv cfg (step cfg st op).1 (fibReplay fib (sortBy fibLe (fibReqs (step cfg st op).2))) refs''
+        (report unr op) := hinv.transfer (fun t q => fibGet_sortBy fib _ t q) g2
+    have hinv3 := hinv2.perm { (step cfg st op).1 with dests := sortBy destLeM (step cfg st op).1.dests }
+      (sortBy_perm destLeM _) rfl
+    have hcs := checkStep_ok hinv3
+    simp only [runFrom, obsOfRun, map_cons, obsOfStep, canonStep, checkFrom, e2]
+    rw [sortBy_map_destObs, hcs]
+    exact ih _ _ _ _ _ hwf.2 hinv2
+
 end Rbgp.Fib
